@@ -70,6 +70,9 @@ def hygiene():
 def coq_make(jobs=16, timeout=3000):
     """full .vo build of the static development (never -vos); incremental when nothing changed"""
     with Lock():
+        want = "-Q . Rex\n" + "\n".join(sorted(f for f in os.listdir(COQ) if f.endswith(".v") and f != "Extract.v")) + "\n"
+        cp = os.path.join(COQ, "_CoqProject")
+        if not os.path.exists(cp) or open(cp).read() != want: open(cp, "w").write(want)
         if not os.path.exists(os.path.join(COQ, "Makefile")) or \
                 os.path.getmtime(os.path.join(COQ, "Makefile")) < os.path.getmtime(os.path.join(COQ, "_CoqProject")):
             rc, o, e, _ = sh("coq_makefile -f _CoqProject -o Makefile", cwd=COQ)
@@ -330,7 +333,7 @@ class Check:
             # one VIOLATION line per distinct signature
             done = set()
             for v in unknown:
-                if v["signature"] in done: continue
+                if v["signature"] in done or len(done) >= 5: continue
                 done.add(v["signature"])
                 h = hashlib.sha1(json.dumps(v, sort_keys=True, default=str).encode()).hexdigest()[:12]
                 path = os.path.join(rdir, f"{h}.json")
